@@ -98,6 +98,11 @@ where
     // per worker: (busy since ms+1 or 0, child handle) for the watchdog
     let busy: Vec<AtomicU64> = (0..workers).map(|_| AtomicU64::new(0)).collect();
     let killed: Vec<AtomicBool> = (0..workers).map(|_| AtomicBool::new(false)).collect();
+    // which phase the worker is in: the run budget applies to the run-thread
+    // phase only; building inputs and evaluating oracles get a separate,
+    // generous budget (a slow builder must never become a `timeout` alarm)
+    let in_run: Vec<AtomicBool> = (0..workers).map(|_| AtomicBool::new(false)).collect();
+    let builder_budget_ms: u64 = 300_000;
     let children: Vec<Mutex<Option<Arc<Mutex<Child>>>>> = (0..workers).map(|_| Mutex::new(None)).collect();
     let done = AtomicBool::new(false);
 
@@ -109,7 +114,8 @@ where
                 let now = t0.elapsed().as_millis() as u64 + 1;
                 for w in 0..workers {
                     let since = busy[w].load(Ordering::SeqCst);
-                    if since != 0 && now.saturating_sub(since) > cfg.run_budget.as_millis() as u64 {
+                    let budget = if in_run[w].load(Ordering::SeqCst) { cfg.run_budget.as_millis() as u64 } else { builder_budget_ms };
+                    if since != 0 && now.saturating_sub(since) > budget {
                         if let Some(ch) = children[w].lock().unwrap().as_ref() {
                             killed[w].store(true, Ordering::SeqCst);
                             let _ = ch.lock().unwrap().kill();
@@ -127,7 +133,7 @@ where
         });
         let mut handles = vec![];
         for w in 0..workers {
-            let (next, stop, sink, busy, killed, children) = (&next, &stop, &sink, &busy, &killed, &children);
+            let (next, stop, sink, busy, killed, children, in_run) = (&next, &stop, &sink, &busy, &killed, &children, &in_run);
             let (issued, completed, deaths, timeouts) = (&issued, &completed, &deaths, &timeouts);
             handles.push(scope.spawn(move || {
                 let mut worker = spawn_worker(cfg.thorough);
@@ -147,6 +153,7 @@ where
                         let spec = &specs[pos];
                         issued.fetch_add(1, Ordering::SeqCst);
                         let line = spec.to_json().to_string();
+                        in_run[w].store(false, Ordering::SeqCst);
                         busy[w].store(t0.elapsed().as_millis() as u64 + 1, Ordering::SeqCst);
                         let sent = writeln!(worker.stdin, "{}", line).and_then(|_| worker.stdin.flush());
                         let mut resp = String::new();
@@ -157,10 +164,15 @@ where
                                 let n = worker.stdout.read_line(&mut resp).unwrap_or(0);
                                 if n > 0 && resp.trim() == "P" {
                                     in_run_phase = true;
+                                    // order matters for the watchdog: new clock first, then the tighter budget
+                                    busy[w].store(t0.elapsed().as_millis() as u64 + 1, Ordering::SeqCst);
+                                    in_run[w].store(true, Ordering::SeqCst);
                                     continue;
                                 }
                                 if n > 0 && resp.trim() == "Q" {
                                     in_run_phase = false;
+                                    in_run[w].store(false, Ordering::SeqCst);
+                                    busy[w].store(t0.elapsed().as_millis() as u64 + 1, Ordering::SeqCst);
                                     continue;
                                 }
                                 break n;
@@ -176,7 +188,7 @@ where
                             deaths.fetch_add(1, Ordering::SeqCst);
                             let (class, detail) = if was_killed {
                                 timeouts.fetch_add(1, Ordering::SeqCst);
-                                ("timeout".to_string(), format!("run exceeded the wall budget of {} s", cfg.run_budget.as_secs()))
+                                ("timeout".to_string(), if in_run_phase { format!("run exceeded the wall budget of {} s", cfg.run_budget.as_secs()) } else { "builder phase exceeded 300 s".to_string() })
                             } else {
                                 ("abort".to_string(), format!("worker process died: {:?}", status))
                             };
